@@ -2,6 +2,7 @@ package main
 
 import (
 	"go/ast"
+	"golang.org/x/tools/go/packages"
 	"strings"
 	"text/template/parse"
 
@@ -53,7 +54,7 @@ func (c *Ctx) fontTemplate() *fontTmpl {
 				}
 			}
 			if fn.Name() == "Funcs" && len(call.Args) == 1 {
-				if cl, ok := call.Args[0].(*ast.CompositeLit); ok {
+				if cl := compositeLitOf(p, call.Args[0]); cl != nil {
 					for _, el := range cl.Elts {
 						if kv, ok := el.(*ast.KeyValueExpr); ok {
 							if k, ok := constStrOf(info, kv.Key); ok {
@@ -187,4 +188,37 @@ func (t *fontTmpl) sectionText(section string) string {
 		}
 	}
 	return sb.String()
+}
+
+// compositeLitOf resolves an expression to a composite literal: the literal itself, or the
+// initialiser of the package-level variable it names.
+func compositeLitOf(p *packages.Package, e ast.Expr) *ast.CompositeLit {
+	switch x := ast.Unparen(e).(type) {
+	case *ast.CompositeLit:
+		return x
+	case *ast.Ident:
+		obj := p.TypesInfo.ObjectOf(x)
+		for _, f := range p.Syntax {
+			for _, d := range f.Decls {
+				gd, ok := d.(*ast.GenDecl)
+				if !ok {
+					continue
+				}
+				for _, sp := range gd.Specs {
+					vs, ok := sp.(*ast.ValueSpec)
+					if !ok {
+						continue
+					}
+					for i, n := range vs.Names {
+						if p.TypesInfo.Defs[n] == obj && i < len(vs.Values) {
+							if cl, ok := ast.Unparen(vs.Values[i]).(*ast.CompositeLit); ok {
+								return cl
+							}
+						}
+					}
+				}
+			}
+		}
+	}
+	return nil
 }
